@@ -1,4 +1,6 @@
 import PortusModel.Props.C02
+import PortusModel.Props.C02History
+import PortusModel.Props.C02Loop
 #print axioms Portus.C02.other_ignored
 #print axioms Portus.C02.measure_unknown_ignored
 #print axioms Portus.C02.report_delivered
@@ -7,3 +9,12 @@ import PortusModel.Props.C02
 #print axioms Portus.C02.ready_drops_only_that_address
 #print axioms Portus.Rt.runUser_spec
 #print axioms Portus.Rt.step_ok
+#print axioms Portus.C02.step_refines
+#print axioms Portus.C02.history_refines_from
+#print axioms Portus.C02.history_refines_flat_map
+#print axioms Portus.C02.complete_run_equals_spec
+#print axioms Portus.C02.report_reaches_current_handler_only
+#print axioms Portus.C02.closed_flow_hears_nothing
+#print axioms Portus.C02.Abs_init
+#print axioms Portus.C02.loop_calls_eq_hist_calls
+#print axioms Portus.C02.loop_refines_flat_map
